@@ -310,6 +310,38 @@ def explore_registry(run, n_random):
         if len(set(nums)) != len(nums):
             run.violate("C25/same-number-twice", "names registered through Event() share numbers: %s" % nums, cj)
         run.case(cj, nontrivial=True)
+    # names of every shape first used through attribute access on a fresh registry: each gets a number of its own, for good
+    import collections
+    shapes = ["__RESET__", "__x__", "__%d__" % rng.randrange(1000), "__private", "_tick", "trailing__", "__", "___", "_", "a.b", "1abc",
+              "with space", "caf\u00e9", "X" * 300, "lower", "MiXed", "__init_subclass_hook__", "__custom_%d" % rng.randrange(1000),
+              "__reset__", "__A", "A__", "__0__"]
+    reg2 = mevent.SignalSource()
+    plain_obj = collections.OrderedDict()
+    got = {}
+    cj = {"what": "names-first-used-through-attribute-access", "names": shapes}
+    for nm in shapes:
+        if hasattr(plain_obj, nm):
+            continue                    # a real attribute of the registry object's class: the recorded C25 finding, probed elsewhere
+        try:
+            n1 = getattr(reg2, nm)
+            n2 = getattr(reg2, nm)
+        except Exception as ex:  # noqa
+            run.violate("C25/attribute-access-error", "getattr(signals, %r) raised %s: %s" % (nm, type(ex).__name__, ex), cj)
+            continue
+        if not isinstance(n1, int) or n1 != n2 or reg2.get(nm) != n1:
+            run.violate("C25/attribute-access-number", "getattr(signals, %r) gave %r, then %r; the registry holds %r" % (nm, n1, n2, reg2.get(nm)), cj)
+            continue
+        if n1 in got:
+            run.violate("C25/same-number-twice", "names %r and %r, both first used through attribute access, share number %r" % (got[n1], nm, n1), cj)
+        got[n1] = nm
+        try:
+            back = reg2.name_for_signal(n1)
+        except Exception as ex:  # noqa
+            back = "%s: %s" % (type(ex).__name__, ex)
+        if back != nm:
+            run.violate("C25/name_for_signal", "name_for_signal(%r) answers %r for the name %r registered through attribute access" % (n1, back, nm), cj)
+    run.count("names of many shapes first used through attribute access")
+    run.case(cj, nontrivial=True)
     # Event(signal=<name>) with names that are also attributes of the registry object
     import text_corr
     cj = {"what": "event-with-attribute-like-name"}
@@ -407,7 +439,7 @@ def make_tsa_class(by_value=False):
     return Obj
 
 
-KIND = {"read": 0, "assign": 1, "aug": 2, "misread": 3}
+KIND = {"read": 0, "assign": 1, "aug": 2, "misread": 3, "classread": 0, "hasattr": 0}   # a look-up through the class is a read
 
 
 def tsa_run(progs, chooser, opcode=False):
@@ -427,6 +459,10 @@ def _tsa_run(progs, chooser, opcode=False):
             for kind, arg in p:
                 if kind == "read":
                     tsa_stmts.do_read(o)
+                elif kind == "classread":
+                    tsa_stmts.do_class_read(o)
+                elif kind == "hasattr":
+                    tsa_stmts.do_hasattr(o)
                 elif kind == "assign":
                     tsa_stmts.do_assign(o, arg)
                 elif kind == "aug":
@@ -474,7 +510,9 @@ def gen_tsa_progs(rng, allow_misread=False):
         p = []
         for _ in range(rng.randint(1, 3)):
             r = rng.random()
-            if r < 0.3:
+            if r < 0.06:
+                p.append((rng.choice(["classread", "hasattr"]), 0))
+            elif r < 0.3:
                 p.append(("read", 0))
             elif r < 0.6:
                 p.append(("assign", rng.randint(1, 9)))
@@ -558,11 +596,49 @@ def explore_instances(run, n_random):
                 if got != 0:
                     run.violate("C29/new-instance-not-zero", "a new instance reads %r (other instances were assigned before)" % (got,),
                                 {"what": "instances", "ops": ops})
-            elif r < 0.7:
+            elif r < 0.55:
                 i, v = rng.randrange(len(insts)), rng.randint(1, 99)
                 insts[i].x = v
                 model[i] = v
                 ops.append(("set", i, v))
+            elif r < 0.75 and len(insts) >= 2 and not delegating:
+                # one statement (or two consecutive ones) that uses two instances
+                i, j = rng.sample(range(len(insts)), 2)
+                a, b = insts[i], insts[j]
+                form = rng.choice(["b.x += a.x", "b.x = a.x + 1", "a.x, b.x = b.x, a.x", "total += a.x; b.x = v", "if a.x <= K: b.x = v",
+                                   "b.x -= a.x", "a.x + b.x"])
+                v = rng.randint(1, 99)
+                va, vb = model.get(i, 0), model.get(j, 0)
+                if form == "b.x += a.x":
+                    tsa_stmts.two_aug_from(b, a)
+                    model[j] = vb + va
+                elif form == "b.x = a.x + 1":
+                    tsa_stmts.two_assign_from(b, a)
+                    model[j] = va + 1
+                elif form == "a.x, b.x = b.x, a.x":
+                    tsa_stmts.two_swap(a, b)
+                    model[i], model[j] = vb, va
+                elif form == "total += a.x; b.x = v":
+                    tsa_stmts.two_accumulate_then_assign(a, b, v)
+                    model[j] = v
+                elif form == "if a.x <= K: b.x = v":
+                    tsa_stmts.two_compare_then_assign(a, b, v)
+                    model[j] = v
+                elif form == "b.x -= a.x":
+                    tsa_stmts.two_sub_from(b, a)
+                    model[j] = vb - va
+                else:
+                    tsa_stmts.two_read_both(a, b)
+                ops.append(("two", form, i, j, v))
+                run.count("statement using two instances: " + form)
+                for k in range(len(insts)):
+                    got = insts[k].__dict__.get(getattr(Obj.__dict__["x"], "_key", None), None) if hasattr(Obj.__dict__["x"], "_key") else None
+                    if got is None:
+                        continue
+                    if got != model.get(k, 0):
+                        run.violate("C29/value-shared-between-instances", "after `%s` (a = instance %d, b = instance %d) instance %d holds %r, "
+                                    "expected %r" % (form, i, j, k, got, model.get(k, 0)), {"what": "instances", "ops": ops})
+                        model[k] = got
             else:
                 i = rng.randrange(len(insts))
                 got = insts[i].x
@@ -570,6 +646,11 @@ def explore_instances(run, n_random):
                 if got != model.get(i, 0):
                     run.violate("C29/value-shared-between-instances", "instance %d reads %r, the last value assigned to it is %r"
                                 % (i, got, model.get(i, 0)), {"what": "instances", "ops": ops})
+        for k in range(len(insts)):
+            got = insts[k].x
+            if got != model.get(k, 0):
+                run.violate("C29/value-shared-between-instances", "at the end instance %d reads %r, the value it should hold is %r"
+                            % (k, got, model.get(k, 0)), {"what": "instances", "ops": ops})
         run.traces_validated += 1
         run.case({"what": "instances", "ops": ops}, nontrivial=len(insts) >= 2)
 
